@@ -2,7 +2,7 @@
 import vfx
 from props import hist, histprop, c03, spec
 
-CONFIGS = ["ovl_mm", "ovl_mmm", "ovl_pp", "ovl_mp", "ovl_sub", "ovl_alt", "ovl_ovl", "alt_ovl"]
+CONFIGS = ["ovl_mm", "ovl_mmm", "ovl_4", "ovl_pp", "ovl_mp", "ovl_sub", "ovl_alt", "ovl_ovl", "alt_ovl"]
 MIX = (["removefile"] * 4 + ["removedir"] * 3 + ["removedirall"] * 3 + ["createfile"] * 4 + ["createdir"] * 3 + ["append"] * 2
        + ["createdirall", "copyfile", "movefile", "readdir", "walkdir", "exists", "metadata", "probe", "readtostring", "movedir"])
 
